@@ -10,7 +10,7 @@ fn up(k: i64, d: i64) -> Update { Update { data: Tuple::new(vec![Value::Int64(k)
 fn verif_witness() {
     let choices: [(i64, i64); 7] = [(1, 1), (1, -1), (2, 1), (2, -1), (3, 1), (3, -1), (2, 0)];
     let mut cases = 0usize;
-    for len in 1..=6usize {
+    for len in 1..=(if vw_thorough() { 7usize } else { 6 }) {
         let total = choices.len().pow(len as u32);
         for code in 0..total {
             let mut c = code; let mut log = Vec::new();
